@@ -88,6 +88,8 @@ type client struct {
 	last    *msg
 	stalled bool
 	aggr    int // aggressive actions taken in the calm phase
+	tries   int // consecutive attempts at the same turn (a refused choice must not be repeated for ever)
+	turnKey string
 }
 
 type hand struct {
@@ -232,12 +234,22 @@ func (h *hand) chooseAction(c *client, v *view) *msg {
 	if h.fc.Staller {
 		// the stalling strategy: whatever keeps the hand going without
 		// moving a chip; termination must hold for every strategy
+		// a choice that is refused (an engine may well refuse a zero bet) is
+		// not repeated: the next preference is tried at the same turn
+		key := fmt.Sprintf("%s/%d/%d", v.gs.Status.Round, v.gs.Status.CurrentWager, v.gs.Status.CurrentRoundPot)
+		if key != c.turnKey {
+			c.turnKey, c.tries = key, 0
+		}
+		var avail []string
 		for _, pref := range []string{"bet", "check", "pass", "call", "fold", "allin"} {
 			if contains(v.allowed, pref) {
-				op = pref
-				break
+				avail = append(avail, pref)
 			}
 		}
+		if len(avail) > 0 {
+			op = avail[c.tries%len(avail)]
+		}
+		c.tries++
 		m := &msg{actor: fmt.Sprintf("p%d", c.id), op: op, ver: v.ver}
 		if op == "bet" {
 			m.args = []int64{0}
